@@ -14,7 +14,7 @@ RULE = ("seeded gen_coords runs with dense, tiny, cubic, non-cubic and density-d
 ASSUMPTIONS = wa.ASSUMPTIONS + ["where twice the step length reaches the smallest box edge the literal minimum-image reading "
                                 "is undefined; there the oracle demands that some periodic image of the displacement has the step length"]
 REAL_VS_STUB = wa.REAL_VS_STUB
-PROBES = wa.PROBES + ["placed_interacting_across_boundary", "step_longer_than_half_box", "user_grid"]
+PROBES = wa.PROBES + ["ring_soup", "placed_interacting_across_boundary", "step_longer_than_half_box", "user_grid"]
 PROFILE = {"box_modes": ["dense", "dense", "tiny", "cubic", "noncubic", "density"], "p_gs": 0.5, "p_sf": 0.5, "p_mf": 0.5,
            "faults": ["step", "start", "overlap"], "n_entries": (1, 4), "max_molecules": 12,
            "shapes": ["single", "linear", "linear", "star", "comb", "tree", "ring"]}
@@ -37,6 +37,19 @@ def gen_job(verif_seed, tier, index):
         job["opts"].pop("density", None)
         job["opts"]["box"] = [edge, edge, edge]
         job["tiny_box"] = True
+    elif g.random() < 0.17:
+        # ring soup: many small rings - the ring-closing residue has a second, already positioned bonded
+        # neighbour (excluded from the force, but not from the 0.1 nm floor)
+        from gen import topgen
+        spec = job["spec"]
+        mt = spec["moltypes"][0]
+        n = g.choice([3, 3, 3, 4])
+        rn = sorted(spec["restypes"])[0]
+        mt.update({"shape": "ring", "residues": [rn] * n, "edges": [[k, k + 1] for k in range(n - 1)] + [[0, n - 1]]})
+        spec["molecules"] = [[mt["name"], g.randint(25, 60)]]
+        job["opts"].pop("density", None)
+        job["opts"].update(topgen.choose_box(g, spec, {"box_modes": ["cubic", "noncubic"]}))
+        job["ring_soup"] = True
     if g.random() < 0.25:
         jobgen.add_user_grid(job, g)
     if g.random() < 0.15:
@@ -47,6 +60,8 @@ def gen_job(verif_seed, tier, index):
 def _tag(job, res):
     if job.get("grid_points") is not None:
         res["probes"]["user_grid"] = 1
+    if job.get("ring_soup"):
+        res["probes"]["ring_soup"] = 1
     return bool(res["probes"].get("placed_with_neighbours_in_cutoff"))
 
 
